@@ -416,7 +416,12 @@ func (wf *Workflow[I, O]) compile(ctx context.Context, options *graphCompileOpti
 				}
 				wf.dependencies[END][wb.fromNodeKey] = branchDependency
 			} else {
-				n := wf.workflowNodes[endNode]
+				n, ok := wf.workflowNodes[endNode]
+				if !ok {
+					// same rule, and same sticky error, as graph.addBranch applies to a Graph's branch
+					wf.g.buildError = fmt.Errorf("branch end node '%s' needs to be added to graph first", endNode)
+					return nil, wf.g.buildError
+				}
 				n.dependencySetter(wb.fromNodeKey, branchDependency)
 			}
 		}
